@@ -685,6 +685,196 @@ theorem matchYes_iff (a : Str) : matchYes a = true ↔ ∃ r, a = 'y' :: r ∨ a
       · left; injection h
       · right; injection h
 
+/-! ### the hypotheses are decided by the model on every real case
+
+The interchangeability theorems take: the index text is what `int()` reads as `i` (`hint`), it
+survives the stripping of the line (`htxt`, `htne`), the value occurs once, the index text is not a
+choice, and the value can be typed.  The first three are PROVED for the model of `int()` and the
+decimal numeral `str(i)` (`pyInt_toDigits`, `toDigits_typable`), the rest is the executable
+`interchangeHypB` (Model/Question.lean), which the driver answers for every (list, index) pair of the
+harness (entry `c18.interchange_hyp`) and the harness compares with the same condition evaluated by
+Python; `promptCheck … = .ok ()` of the attempt theorems is `promptOkB`, answered by entry `c18.ask`
+and compared with whether the REAL `ChoiceQuestion._write_prompt` can build the prompt. -/
+
+/-- what the deciders mean -/
+theorem hyps_decide (toInt : Str → Option Int) (choices : List Str) (multi : Bool)
+    (default : Option Str) (i : Nat) :
+    (promptOkB toInt choices multi default = true ↔ promptCheck toInt choices multi default = .ok ()) ∧
+    (interchangeHypB choices multi i = true ↔
+      ∃ hi : i < choices.length, (choices.filter (· == choices[i])).length = 1 ∧
+        Nat.toDigits 10 i ∉ choices ∧
+        (if multi then Wordy choices[i] else choices[i] ≠ [] ∧ bytesStrip choices[i] = choices[i])) := by
+  constructor
+  · unfold promptOkB
+    cases promptCheck toInt choices multi default with
+    | ok u => cases u; simp
+    | error e => simp
+  · unfold interchangeHypB
+    by_cases hi : i < choices.length
+    · rw [List.getElem?_eq_getElem hi]
+      cases multi <;>
+        simp [hi, wordyB_iff, typableB_iff, Wordy, and_assoc]
+    · rw [List.getElem?_eq_none (by omega)]
+      simp [hi]
+
+/-- `index_value_interchangeable_ask` for the model of `int()` and the numeral `str(i)`: the
+hypotheses about the index text are proved, not assumed. -/
+theorem index_value_interchangeable_ask_pyInt (choices : List Str) (default : Option Str) (i : Nat)
+    (hi : i < choices.length) (huniq : (choices.filter (· == choices[i])).length = 1)
+    (hnot : Nat.toDigits 10 i ∉ choices)
+    (hval : bytesStrip choices[i] = choices[i]) (hvne : choices[i] ≠ [])
+    (hp : promptCheck pyInt choices false default = .ok ())
+    (limit : Option Nat) (hl : limit ≠ some 0) (rest : List Str) (eof : Bool) :
+    ask pyInt choices false default limit true (Nat.toDigits 10 i :: rest) eof =
+      ⟨.value (.one choices[i]), 1, 0, 1⟩ ∧
+    ask pyInt choices false default limit true (choices[i] :: rest) eof =
+      ⟨.value (.one choices[i]), 1, 0, 1⟩ :=
+  index_value_interchangeable_ask pyInt choices default i _ hi huniq hnot (pyInt_toDigits i)
+    (toDigits_typable i).2.1 (toDigits_typable i).1 hval hvne hp limit hl rest eof
+
+/-- `index_value_interchangeable_multi` for the model of `int()` and the numeral `str(i)` -/
+theorem index_value_interchangeable_multi_pyInt (choices : List Str) (pre post : List Str) (i : Nat)
+    (hi : i < choices.length) (huniq : (choices.filter (· == choices[i])).length = 1)
+    (hnot : Nat.toDigits 10 i ∉ choices)
+    (hw : ∀ p ∈ pre ++ post, Wordy p) (hwv : Wordy choices[i]) :
+    validate pyInt choices true (some (joinWith ',' (pre ++ Nat.toDigits 10 i :: post))) =
+    validate pyInt choices true (some (joinWith ',' (pre ++ choices[i] :: post))) :=
+  index_value_interchangeable_multi pyInt choices pre post i _ hi huniq hnot (pyInt_toDigits i) hw
+    ⟨(toDigits_typable i).1, (toDigits_typable i).2.2⟩ hwv
+
+/-- Multi-select through the whole question: a line that is a well-formed list of items gives the
+same outcome whether an item is typed as the index text or as the value it denotes - under every
+limit, whatever the prompt does. -/
+theorem index_value_interchangeable_multi_ask (toInt : Str → Option Int) (choices : List Str)
+    (default : Option Str) (pre post : List Str) (i : Nat) (txt : Str)
+    (hi : i < choices.length) (huniq : (choices.filter (· == choices[i])).length = 1)
+    (hnot : txt ∉ choices) (hint : toInt txt = some (i : Int))
+    (hw : ∀ p ∈ pre ++ post, Wordy p) (hwt : Wordy txt) (hwv : Wordy choices[i])
+    (limit : Option Nat) (rest : List Str) (eof : Bool) :
+    ask toInt choices true default limit true (joinWith ',' (pre ++ txt :: post) :: rest) eof =
+    ask toInt choices true default limit true (joinWith ',' (pre ++ choices[i] :: post) :: rest) eof := by
+  -- a joined list of words is typed as it is: no surrounding white space, not empty
+  have typed : ∀ items : List Str, items ≠ [] → (∀ p ∈ items, Wordy p) →
+      answerOf default (joinWith ',' items) = some (joinWith ',' items) := by
+    intro items hne hws
+    have hchars : ∀ c ∈ joinWith ',' items, isByteSpace c = false := by
+      clear hne
+      induction items with
+      | nil => simp [joinWith]
+      | cons p r ih =>
+        have hp : ∀ c ∈ p, isByteSpace c = false := by
+          intro c hc
+          have := (hws p (by simp)).2 c hc
+          simp only [isByteSpace, Bool.or_eq_false_iff, beq_eq_false_iff_ne, ne_eq]
+          refine ⟨⟨⟨⟨⟨?_, ?_⟩, ?_⟩, ?_⟩, ?_⟩, ?_⟩ <;> (rintro rfl; revert this; decide)
+        cases r with
+        | nil => simpa [joinWith] using hp
+        | cons q r' =>
+          intro c hc
+          simp only [joinWith, List.mem_append, List.mem_cons] at hc
+          rcases hc with hc | hc | hc
+          · exact hp c hc
+          · subst hc; decide
+          · exact ih (fun x hx => hws x (List.mem_cons_of_mem _ hx)) c hc
+    have hstrip : bytesStrip (joinWith ',' items) = joinWith ',' items := stripWith_none _ _ hchars
+    have hne' : (joinWith ',' items).isEmpty = false := by
+      cases items with
+      | nil => exact absurd rfl hne
+      | cons p r =>
+        have hp := (hws p (by simp)).1
+        cases p with
+        | nil => exact absurd rfl hp
+        | cons a b => cases r <;> simp [joinWith]
+    simp [answerOf, hstrip, hne']
+  have hw1 : ∀ p ∈ pre ++ txt :: post, Wordy p := by
+    intro p hp
+    simp only [List.mem_append, List.mem_cons] at hp
+    rcases hp with hp | rfl | hp
+    · exact hw p (List.mem_append_left _ hp)
+    · exact hwt
+    · exact hw p (List.mem_append_right _ hp)
+  have hw2 : ∀ p ∈ pre ++ choices[i] :: post, Wordy p := by
+    intro p hp
+    simp only [List.mem_append, List.mem_cons] at hp
+    rcases hp with hp | rfl | hp
+    · exact hw p (List.mem_append_left _ hp)
+    · exact hwv
+    · exact hw p (List.mem_append_right _ hp)
+  simp only [ask, if_true]
+  apply askLoop_congr_line
+  rw [lineResult, lineResult, typed _ (by simp) hw1, typed _ (by simp) hw2]
+  exact index_value_interchangeable_multi toInt choices pre post i txt hi huniq hnot hint hw hwt hwv
+
+/-- **Index and value are interchangeable wherever the decider says so** (the statement the
+correspondence checks on every (list, index) pair): single- and multi-select, under every limit that
+allows one attempt, whatever follows on the input - typing `str(i)` and typing the value both return
+the value after one read, one prompt and no error. -/
+theorem interchange_dec (choices : List Str) (multi : Bool) (i : Nat)
+    (h : interchangeHypB choices multi i = true) (limit : Option Nat) (hl : limit ≠ some 0)
+    (rest : List Str) (eof : Bool) :
+    ∃ v, choices[i]? = some v ∧
+      ask pyInt choices multi none limit true (Nat.toDigits 10 i :: rest) eof =
+        ⟨.value (if multi then .many [v] else .one v), 1, 0, 1⟩ ∧
+      ask pyInt choices multi none limit true (v :: rest) eof =
+        ⟨.value (if multi then .many [v] else .one v), 1, 0, 1⟩ := by
+  obtain ⟨hi, huniq, hnot, hcond⟩ := (hyps_decide pyInt choices multi none i).2.mp h
+  refine ⟨choices[i], List.getElem?_eq_getElem hi, ?_⟩
+  cases multi with
+  | false =>
+    simp only [Bool.false_eq_true, if_false] at hcond ⊢
+    exact index_value_interchangeable_ask_pyInt choices none i hi huniq hnot hcond.2 hcond.1 rfl
+      limit hl rest eof
+  | true =>
+    simp only [if_true] at hcond ⊢
+    have hwt : Wordy (Nat.toDigits 10 i) := ⟨(toDigits_typable i).1, (toDigits_typable i).2.2⟩
+    have hv : validate pyInt choices true (some choices[i]) = .ok (.many [choices[i]]) := by
+      have := multi_componentwise pyInt choices [choices[i]] (by simp) (by simpa using hcond)
+      simp only [joinWith] at this
+      rw [this]
+      simp [validateAll, validateOne_value pyInt choices huniq]
+    have ht : validate pyInt choices true (some (Nat.toDigits 10 i)) = .ok (.many [choices[i]]) := by
+      have := index_value_interchangeable_multi_pyInt choices [] [] i hi huniq hnot (by simp) hcond
+      simp only [List.nil_append, joinWith] at this
+      rw [this, hv]
+    have typed : ∀ v : Str, v ≠ [] → (∀ c ∈ v, isWordChar c = true) → answerOf none v = some v := by
+      intro v hne hw
+      have : v.isEmpty = false := by cases v with | nil => exact absurd rfl hne | cons _ _ => rfl
+      simp [answerOf, bytesStrip_of_word v hw, this]
+    have e1 : lineResult pyInt choices true none (Nat.toDigits 10 i) = .ok (.many [choices[i]]) := by
+      rw [lineResult, typed _ hwt.1 hwt.2, ht]
+    have e2 : lineResult pyInt choices true none choices[i] = .ok (.many [choices[i]]) := by
+      rw [lineResult, typed _ hcond.1 hcond.2, hv]
+    simp only [ask, if_true]
+    rw [askLoop_cons_ok pyInt choices true none eof _ rest limit none _ hl rfl e1,
+      askLoop_cons_ok pyInt choices true none eof _ rest limit none _ hl rfl e2]
+    simp [printed]
+
+/-- `ask_outcome_cases` with the prompt hypothesis decided (`promptOkB`, compared on every case with
+the real `_write_prompt`): every dialogue of a question that can show its prompt and has an attempt
+is one of the three outcomes. -/
+theorem ask_outcome_cases_dec (toInt : Str → Option Int) (choices : List Str) (multi : Bool)
+    (default : Option Str) (eof : Bool) (script : List Str) (limit : Option Nat)
+    (hp : promptOkB toInt choices multi default = true) (h0 : limit ≠ some 0) :
+    (∃ bad good rest a, script = bad ++ good :: rest ∧
+        (∀ l ∈ bad, Rejected toInt choices multi default l) ∧
+        lineResult toInt choices multi default good = .ok a ∧
+        (∀ n, limit = some n → bad.length < n) ∧
+        ask toInt choices multi default limit true script eof =
+          ⟨.value a, bad.length + 1, bad.length, bad.length + 1⟩) ∨
+    (∃ bad last rest e, script = bad ++ last :: rest ∧
+        (∀ l ∈ bad, Rejected toInt choices multi default l) ∧
+        lineResult toInt choices multi default last = .error e ∧
+        limit = some (bad.length + 1) ∧
+        ask toInt choices multi default limit true script eof =
+          ⟨.error e, bad.length + 1, bad.length, bad.length + 1⟩) ∨
+    ((∀ l ∈ script, Rejected toInt choices multi default l) ∧
+        (∀ n, limit = some n → script.length < n) ∧
+        ask toInt choices multi default limit true script eof =
+          if eof then ⟨.error .runtimeError, script.length + 1, script.length, script.length + 1⟩
+          else ⟨.pending, script.length, script.length, script.length + 1⟩) :=
+  ask_outcome_cases toInt choices multi default eof script limit
+    ((hyps_decide toInt choices multi default 0).1.mp hp) h0
+
 /-! ### non-vacuity: concrete dialogues, evaluated with the model of CPython's `int()` -/
 
 /-- `["a","b","c"]`, two attempts, the lines `zzz`, `9`, `1`: fails after exactly two reads
@@ -723,5 +913,66 @@ example : (confirm matchYes false true ["Yes".toList] true).result = .answer tru
     (confirm matchYes true true ["no".toList] true).result = .answer false ∧
     (confirm matchYes true true [" ".toList] true).result = .answer true ∧
     (confirm matchYes false true ["".toList] true).result = .answer false := by decide
+
+/-! ### every theorem with hypotheses, applied to a concrete question (all hypotheses discharged) -/
+
+private def abc : List Str := ["a".toList, "b".toList, "c".toList]
+private def zzz : Str := "zzz".toList
+private def nine : Str := "9".toList
+
+private theorem bad2 : ∀ l ∈ [zzz, nine], Rejected pyInt abc false none l := by
+  intro l hl
+  simp only [List.mem_cons, List.not_mem_nil, or_false] at hl
+  rcases hl with rfl | rfl <;> exact ⟨.valueError, by decide⟩
+
+example := choice_member pyInt abc false (some "1".toList) (.one "b".toList) (by decide)
+example := validate_error_classes pyInt abc false (some zzz) .valueError (by decide)
+example := ask_member pyInt abc false none none [zzz, "1".toList] true (.one "b".toList) (by decide)
+example := index_value_interchangeable pyInt abc 1 "1".toList (by decide) (by decide) (by decide) (by decide)
+example := index_value_interchangeable_pyInt abc 1 (by decide) (by decide) (by decide)
+example := index_value_interchangeable_ask pyInt abc none 1 "1".toList (by decide) (by decide) (by decide)
+  (by decide) (by decide) (by decide) (by decide) (by decide) (by decide) (some 2) (by decide) [zzz] false
+example := index_value_interchangeable_ask_pyInt abc none 1 (by decide) (by decide) (by decide) (by decide)
+  (by decide) (by decide) none (by decide) [] true
+example := multi_componentwise pyInt abc ["a".toList, "2".toList] (by decide)
+  (by intro p hp; simp only [List.mem_cons, List.not_mem_nil, or_false] at hp
+      rcases hp with rfl | rfl <;> exact ⟨by decide, by decide⟩)
+example := index_value_interchangeable_multi pyInt abc ["a".toList] [] 1 "1".toList (by decide) (by decide)
+  (by decide) (by decide)
+  (by intro p hp; simp only [List.append_nil, List.mem_cons, List.not_mem_nil, or_false] at hp
+      subst hp; exact ⟨by decide, by decide⟩)
+  ⟨by decide, by decide⟩ ⟨by decide, by decide⟩
+example := index_value_interchangeable_multi_pyInt abc [] [] 1 (by decide) (by decide) (by decide)
+  (by simp) ⟨by decide, by decide⟩
+example := index_value_interchangeable_multi_ask pyInt abc none [] [] 1 "1".toList (by decide) (by decide)
+  (by decide) (by decide) (by simp) ⟨by decide, by decide⟩ ⟨by decide, by decide⟩ (some 1) [] true
+example := empty_line_is_default pyInt abc false (some "1".toList) " \t".toList (by decide)
+example := invalid_prefix pyInt abc false none true [zzz, nine] ["1".toList] (some 2) (by decide) bad2
+  (by intro n hn; cases hn; decide)
+example := attempts_exact_fail pyInt abc false none true [zzz] nine ["1".toList] .valueError (by decide)
+  (fun l hl => bad2 l (by simp only [List.mem_cons, List.not_mem_nil, or_false] at hl; simp [hl]))
+  (by decide)
+example := attempts_exact_value pyInt abc false none true [zzz, nine] "1".toList [] (.one "b".toList) (some 3)
+  (by decide) bad2 (by decide) (by intro n hn; cases hn; decide)
+example := unlimited_all_invalid_aborts pyInt abc false none [zzz, nine] none (by decide) bad2
+  (by intro n hn; cases hn)
+example := all_invalid_waits pyInt abc false none [zzz, nine] (some 5) (by decide) bad2
+  (by intro n hn; cases hn; decide)
+example := prompt_failure pyInt abc false (some zzz) none (by decide) [zzz] true .valueError (by decide)
+example := ask_outcome_cases pyInt abc false none true [zzz, nine, "1".toList] (some 2) (by decide) (by decide)
+example := ask_outcome_cases_dec pyInt abc false none true [zzz, nine, "1".toList] (some 2) (by decide) (by decide)
+example := fuel_suffices pyInt abc false none true 3 [zzz, nine] none none (by decide)
+example := interchange_dec abc false 1 (by decide) (some 1) (by decide) [] true
+example := interchange_dec abc true 2 (by decide) none (by decide) [zzz] false
+
+/-- the deciders are not constantly true: a duplicated value, a value with a leading blank, an index
+text that is itself a choice, an item that is not a word, a default that cannot be shown -/
+example : interchangeHypB ["a".toList, "b".toList, "a".toList] false 0 = false ∧
+    interchangeHypB [" a".toList, "b".toList] false 0 = false ∧
+    interchangeHypB ["1".toList, "0".toList] false 0 = false ∧
+    interchangeHypB ["a b".toList, "c".toList] true 0 = false ∧
+    interchangeHypB abc false 3 = false ∧
+    promptOkB pyInt abc false (some "99".toList) = false ∧
+    promptOkB pyInt abc true (some "0, 1".toList) = true := by decide
 
 end Clikit.Props.C18
